@@ -273,6 +273,42 @@ fn run_c09(ctx: &mut Ctx) {
         }
     }
     w_low_part_equal(ctx);
+    // long operands of the dynamic and auto types: equal, differing in one bit at either end or in the middle, one word longer
+    {
+        let mut rng = Rng::derive(ctx.seed, 0x090C, 0);
+        for ta in [IDX_BVD, IDX_BV] {
+            for tb in [IDX_BVD, IDX_BV, 11usize] {
+                for n in gen::long_lens(tier) {
+                    if !ctx.mine() {
+                        continue;
+                    }
+                    for va in gen::lattice_small(n, 64, &mut rng) {
+                        let a = Spec::new(ta, va.clone(), via_for(ta, &mut rng));
+                        let capb = TYPE_FIXED_CAP[tb].unwrap_or(usize::MAX);
+                        let mut variants: Vec<Bits> = vec![va.clone()];
+                        for pos in [0usize, n / 2, n - 1, (n - 1) / 64 * 64] {
+                            let mut v = va.clone();
+                            v[pos] = !v[pos];
+                            variants.push(v);
+                        }
+                        let mut longer = va.clone();
+                        longer.resize(n + 64, false);
+                        variants.push(longer.clone());
+                        longer[n + 63] = true;
+                        variants.push(longer);
+                        for vb in variants {
+                            if vb.len() > capb {
+                                continue;
+                            }
+                            let b = Spec::new(tb, vb, via_for(tb, &mut rng));
+                            judge(ctx, &Case::new("cmp").with("a", a.enc()).with("b", b.enc()), "W-long-operands");
+                            judge(ctx, &Case::new("cmp").with("a", b.enc()).with("b", a.enc()), "W-long-operands");
+                        }
+                    }
+                }
+            }
+        }
+    }
     // lattice across pairs, lengths differing by whole words
     let mut rng = Rng::derive(ctx.seed, 0x090A, 0);
     for ta in 0..NTYPES {
